@@ -146,6 +146,9 @@ func (i *interpreter) ensureInit(pkg *ssa.Package) {
 	}
 	path := pkg.Pkg.Path()
 	if i.L.isStubPkg(path) || i.L.noInit(path) {
+		if h := pkgInitHooks[path]; h != nil {
+			h(i, pkg)
+		}
 		return
 	}
 	if init := pkg.Func("init"); init != nil && init.Blocks != nil {
